@@ -84,7 +84,7 @@ def gen_which(rng, n):
     return items, cls
 
 
-def gen_pool(rng, max_dice=4, max_faces=4, frac_p=0.1, styles=("unit", "small", "small", "pos")):
+def gen_pool(rng, max_dice=4, max_faces=4, frac_p=0.1, styles=("unit", "small", "small", "pos", "pos", "big")):
     """a list of raw dice (histogram item lists); shapes: homogeneous, groups, proportional twins, mixed"""
     shape = rng.choice(["hom", "hom", "groups", "twins", "mixed", "mixed"])
     nd = rng.randint(1, max_dice)
